@@ -73,13 +73,14 @@ def variant_of(t):
 
 
 class Summ:
-    __slots__ = ("facts", "effects", "ret", "trail")
+    __slots__ = ("facts", "effects", "ret", "trail", "partial")
 
     def __init__(self, facts, effects, ret, trail=()):
         self.facts, self.effects, self.ret, self.trail = tuple(facts), tuple(effects), ret, trail
+        self.partial = False
 
     def __repr__(self):
-        return "<Summ if %s do %s => %s>" % ([show_fact(f) for f in self.facts], [show_eff(e) for e in self.effects], show(self.ret, maxd=6))
+        return "<Summ if %s do %s => %s>" % ([show_fact(f) for f in self.facts], [show_eff(e) for e in self.effects], show(self.ret, maxd=6) if self.ret is not None else "(next iteration)")
 
     def writes(self):
         return [e for e in self.effects if e[0] == "write"]
@@ -119,7 +120,7 @@ class _State:
 class Paths:
     """Path summaries of the functions of a Program."""
 
-    def __init__(self, prog, inline=None, depth=4, limit=1500, path_limit=400):
+    def __init__(self, prog, inline=None, depth=4, limit=1500, path_limit=400, loops="refuse"):
         self.prog = prog
         self.canon = Canon(prog)
         self.canon.lam_args = False   # closures stay aggregates (with their captures): rules summarise them path by path
@@ -127,6 +128,9 @@ class Paths:
         self.depth = depth
         self.limit = limit
         self.path_limit = path_limit
+        self.loops = loops   # "refuse": functions with loops are Unsupported; "once": every loop body is walked at most
+        #                      once and a path may end at a back edge (Summ.partial, ret None) — for rules about what one
+        #                      iteration does, never for whole-function claims
         self._memo = {}
 
     # ---- public ----------------------------------------------------------------------------------------
@@ -159,17 +163,24 @@ class Paths:
     # ---- one function ----------------------------------------------------------------------------------
     def _summarise(self, fn, depth):
         cfg = CFG(fn.body)
+        partial = set()
         if cfg.loop_heads():
-            raise HasLoop("%s has a loop" % fn.path)
-        try:
-            paths = enum_paths(cfg, 0, None, self.path_limit)
-        except TooManyPaths:
-            raise Unsupported("too many paths in %s" % fn.path)
+            if self.loops != "once":
+                raise HasLoop("%s has a loop" % fn.path)
+            paths = _paths_once(cfg, self.path_limit, partial)
+        else:
+            try:
+                paths = enum_paths(cfg, 0, None, self.path_limit)
+            except TooManyPaths:
+                raise Unsupported("too many paths in %s" % fn.path)
         out = []
         for path in paths:
             events = self._events(fn, path)
+            is_partial = tuple(path) in partial
             for st, ret in self._expand(fn, events, depth):
-                out.append(Summ(_dedup(st.facts), st.effects, ret, tuple(path)))
+                sm = Summ(_dedup(st.facts), st.effects, None if is_partial else ret, tuple(path))
+                sm.partial = is_partial
+                out.append(sm)
                 if len(out) > self.limit:
                     raise Unsupported("too many summaries in %s" % fn.path)
         return out
@@ -232,7 +243,8 @@ class Paths:
                     lit = ("not",) + tuple(v for v, _ in t["targets"])
                 ev.append(("cond", d, lit, self._discr_ty(fn, path, k, t)))
         last = len(path) - 1
-        ev.append(("ret", res(po.return_origin(), last, po.end(last))))
+        tl = blocks[path[last]]["t"]
+        ev.append(("ret", res(po.return_origin(), last, po.end(last)) if tl and tl["k"] == "return" else UNIT))
         return ev
 
     def _single_assign(self, fn):
@@ -661,6 +673,36 @@ class Paths:
 
 
 # ---- helpers ---------------------------------------------------------------------------------------------
+def _paths_once(cfg, limit, partial):
+    """entry paths that visit every block at most once and end at a return or where the next step would re-enter a
+    block already on the path (a back edge); the latter are recorded in `partial`"""
+    body = cfg.body
+    out = []
+
+    def rec(b, path, onpath):
+        if len(out) > limit:
+            raise Unsupported("too many paths")
+        path.append(b)
+        onpath.add(b)
+        t = body["blocks"][b]["t"]
+        if t and t["k"] == "return":
+            out.append(list(path))
+        else:
+            back = False
+            for s_ in cfg.succ[b]:
+                if s_ in onpath:
+                    back = True
+                else:
+                    rec(s_, path, onpath)
+            if back:
+                out.append(list(path))
+                partial.add(tuple(path))
+        path.pop()
+        onpath.discard(b)
+    rec(0, [], set())
+    return out
+
+
 def _has_mut_ref(ty, depth=0):
     """the type is or contains a `&mut` (Option<&mut T>, a closure capturing one, a tuple …)"""
     if not isinstance(ty, dict) or depth > 6:
